@@ -26,6 +26,11 @@ fn flatten(stmts: &[Stmt], out: &mut Vec<Flat>) {
                     Arm::Line(n) => out.push(Flat::S(Stmt::Goto(*n))),
                     Arm::Stmts(v) => flatten(v, out),
                 }
+                // an ELSE with nothing behind it leaves nothing to skip
+                let else_ = match else_ {
+                    Some(Arm::Stmts(v)) if v.iter().all(|s| !has_code(s)) => &None,
+                    other => other,
+                };
                 if let Some(e) = else_ {
                     let j = out.len();
                     out.push(Flat::Jump(0));
@@ -517,6 +522,9 @@ impl Machine {
                 Err(f) => {
                     if pos.line.is_some() {
                         self.cont = None; // CONT after an error is not part of the fragment
+                    } else {
+                        // an error in a direct line abandons its loops and calls
+                        self.frames.clear();
                     }
                     self.report(f, here);
                     return Halt::Done;
@@ -1062,7 +1070,16 @@ impl Env for Machine {
         let mut scope = HashMap::new();
         for (p, a) in def.params.iter().zip(args.iter()) {
             let t = p.ty(&self.deftypes);
-            let v = stored(&convert(t, a)?);
+            let v = match convert(t, a) {
+                Ok(v) => stored(&v),
+                Err(e) => {
+                    // binding a parameter is part of the call: calling line or DEF line
+                    if self.fn_error_line.is_none() {
+                        self.fn_error_line = def.line;
+                    }
+                    return Err(Fault::Code(e));
+                }
+            };
             scope.insert(p.text(), v);
         }
         self.scopes.push(scope);
